@@ -20,6 +20,7 @@ func init() { register("C19", c19) }
 // conversion, formatting); sinks are all stores into SchemaError.Reason.
 func c19(r *core.Report) {
 	c19SettingsCopy(r)
+	c19Customizer(r)
 	p := r.Prog
 	p.BuildSSA()
 	r.Assumption("user-registered format validators and custom regex compilers are outside the repository: their error text is copied into Reason by err.Error(); the repo cannot constrain them")
@@ -206,6 +207,51 @@ func c19SettingsCopy(r *core.Report) {
 		}
 		if n == 0 {
 			r.Trivial("settingscopy:none", "-", "settings are never copied: every nested visit receives the caller's settings object itself")
+		}
+	})
+}
+
+// c19Customizer: the message customiser reaches every error a validation produces. SchemaError.Error
+// falls back to the default text -- which quotes the rejected value and the schema -- whenever the
+// error was built without the customiser of the settings it was produced under.
+func c19Customizer(r *core.Report) {
+	p := r.Prog
+	info := p.Pkg("openapi3").TypesInfo
+	r.RunRule("C19.customizer", "every validation error carries the caller's message customiser: each SchemaError composite literal in a function of package openapi3 that has a validation-settings parameter sets customizeMessageError, from that parameter", 25, func() {
+		st := p.NamedType("openapi3", "schemaValidationSettings")
+		for _, d := range p.AllDecls("openapi3") {
+			if d.Body == nil {
+				continue
+			}
+			var settings types.Object
+			for _, f := range d.Type.Params.List {
+				if pt, ok := info.TypeOf(f.Type).(*types.Pointer); ok && core.NamedOf(pt) == st && len(f.Names) == 1 {
+					settings = info.ObjectOf(f.Names[0])
+				}
+			}
+			if settings == nil {
+				continue
+			}
+			for i, el := range schemaErrLits(info, d.Body) {
+				key := fmt.Sprintf("customizer:%s#%d(%s)", core.FuncName(d), i+1, el.field)
+				ok := false
+				for _, e := range el.lit.Elts {
+					if kv, isKV := e.(*ast.KeyValueExpr); isKV {
+						if id, isID := kv.Key.(*ast.Ident); isID && id.Name == "customizeMessageError" {
+							if sel, isSel := ast.Unparen(kv.Value).(*ast.SelectorExpr); isSel {
+								if x, isX := ast.Unparen(sel.X).(*ast.Ident); isX && info.ObjectOf(x) == settings {
+									ok = true
+								}
+							}
+						}
+					}
+				}
+				if ok {
+					r.OK(key, p.Pos(el.lit.Pos()), "customizeMessageError taken from the settings")
+				} else {
+					r.Bad(key, p.Pos(el.lit.Pos()), fmt.Sprintf("the SchemaError (%s) built in %s does not carry the settings' message customiser: a caller who installed one (WithCustomSchemaErrorFunc, SetSchemaErrorMessageCustomizer) to keep values out of messages gets the default text for this error, and that text quotes the rejected value", el.field, core.FuncName(d)))
+				}
+			}
 		}
 	})
 }
